@@ -214,11 +214,14 @@ Record cvendor := mkcvendor { cv_name : bytes; cv_ident : bytes; cv_num : Z; cv_
 Definition cvendor_lt (a b : cvendor) : bool :=
   if negb (cv_num a =? cv_num b) then cv_num a <? cv_num b else bytes_lt (cv_name a) (cv_name b).
 
-Fixpoint check_vendors (ignore seen : list bytes) (l : list gvendor) : res (list cvendor) :=
+(* [vseen]: identifiers of the vendors already accepted (two vendors whose names normalise to one identifier
+   would be emitted as the same declarations) *)
+Fixpoint check_vendors (ignore seen vseen : list bytes) (l : list gvendor) : res (list cvendor) :=
   match l with
   | [] => Ok []
   | v :: r =>
     if negb (gn_llen v =? 1) || negb (gn_tlen v =? 1) then Err E_vendor else
+    if mem (gn_ident v) vseen then Err E_conflict else
     match check_attrs invalid_vendor_attr E_vattr ignore seen (gn_attrs v) with
     | Ok (kept, seen') =>
       let attrs := sort attr_lt kept in
@@ -226,7 +229,7 @@ Fixpoint check_vendors (ignore seen : list bytes) (l : list gvendor) : res (list
       match first_error (fun a => check_values a vals) attrs with
       | Some e => Err e
       | None =>
-        match check_vendors ignore seen' r with
+        match check_vendors ignore seen' (gn_ident v :: vseen) r with
         | Ok cs => Ok (mkcvendor (gn_name v) (gn_ident v) (gn_num v) attrs vals :: cs)
         | Err x => Err x | Panic => Panic | OutOfFuel => OutOfFuel
         end
@@ -262,7 +265,7 @@ Definition gen (o : gopts) (d : gdict) : res (list gdecl) :=
       match first_error (fun e => check_vals 18446744073709551615 [] (ext_vals e)) ext with
       | Some e => Err e
       | None =>
-      match check_vendors (go_ignore o) seen (gd_vendors d) with
+      match check_vendors (go_ignore o) seen [] (gd_vendors d) with
       | Ok cvs =>
         let vendors := sort cvendor_lt cvs in
         Ok (emit attrs ext values exts vendors)
